@@ -13,7 +13,19 @@ Streams
             multiset of an immediate re-run, and a deep snapshot of all objects before/after.
   perm    : the default rules applied in two different orders (handler sets replaced by lists).
   xproc   : the same documents validated here and in a fresh interpreter with another
-            PYTHONHASHSEED.
+            PYTHONHASHSEED (and, every other batch, another locale / text encoding default).
+  wide    : the history executor over the wider quantifier (added after seeded round 2):
+            documents with unresolved / resolved links and includes, deeper trees, non-ASCII values;
+            validations of the Document, of a Section and of a Property, started as Validation(obj),
+            Document.validate(), Validation(obj, validate=False) + run_validation(), or handler by
+            handler through Validation.validate(obj); loads and saves through every entry point
+            (odml.load / odml.save, fresh and re-used ODMLReader / ODMLWriter objects, from_file vs
+            from_string, XMLReader / DictReader directly, quiet and loud, all four formats, good files
+            and every kind of refused file, unwritable targets); constructor / helper / clone spellings
+            of object creation incl. refused ones; every cardinality argument shape incl. refused
+            ones; attribute and value edits between two runs of the same Validation object; link
+            resolution; user rules that raise; the library's non-default rules.  Steps the Lean model
+            has no macro for are checked by the oracle only (the model keeps its registry over them).
 """
 import io
 import json
@@ -47,7 +59,19 @@ def custom_3(obj):
     yield  # pragma: no cover
 
 
-CUSTOM = {1: custom_1, 2: custom_2, 3: custom_3}
+def custom_4(obj):
+    """A user rule that fails on some objects (names starting with 'b'); oracle-only."""
+    from odml.validation import ValidationError, IssueID, LABEL_WARNING
+    name = getattr(obj, "name", None)
+    if isinstance(name, str) and name.startswith("b"):
+        raise ValueError("user rule failed")
+    yield ValidationError(obj, "c4", LABEL_WARNING, IssueID.custom_validation)
+
+
+CUSTOM = {1: custom_1, 2: custom_2, 3: custom_3, 4: custom_4}
+# rules the library ships but does not register by default ("should be added on demand");
+# the Lean model does not know them: histories using them are decided by the oracle alone
+EXTRA_RULES = {"section": ["section_repository_present"], "property": ["property_terminology_check"]}
 # default rule functions a user may add to a reset validation, per class (kind-correct)
 RULES_FOR = {"odML": ["object_required_attributes", "section_unique_name_type", "document_unique_ids"],
              "section": ["object_name_readable", "section_type_must_be_defined", "property_unique_names",
@@ -62,13 +86,24 @@ def handler_func(h):
     from odml import validation
     if "c" in h:
         return CUSTOM[h["c"]]
+    if "x" in h:
+        return getattr(validation, h["x"])
     return getattr(validation, h["r"])
+
+
+def handler_modelled(h):
+    return ("c" in h and h["c"] <= 3) or "r" in h
 
 
 def registry_names():
     from odml.validation import Validation
-    return dict((k, sorted(getattr(f, "__name__", repr(f)) for f in Validation._handlers.get(k, ())))
-                for k in KLASSES)
+    out = dict((k, sorted(getattr(f, "__name__", repr(f)) for f in Validation._handlers.get(k, ())))
+               for k in KLASSES)
+    for k in sorted(Validation._handlers, key=repr):
+        # rules filed under any other key (never the case on the unchanged tree) are a change too
+        if k not in out and Validation._handlers[k]:
+            out[str(k)] = sorted(getattr(f, "__name__", repr(f)) for f in Validation._handlers[k])
+    return out
 
 
 def registry_copy():
@@ -122,9 +157,45 @@ def deep_snapshot(root):
     return d
 
 
+def full_snapshot(doc, extra=()):
+    """deep_snapshot plus, independently of it, what a writer would put into a file now (the writers'
+    to_string does not validate).  `extra`: validated objects that are not (or no longer) in doc."""
+    out = {"deep": deep_snapshot(doc), "extra": [deep_snapshot(o) for o in extra]}
+    try:
+        try:
+            from odml.tools.dict_parser import DictWriter
+            out["file"] = repr(DictWriter().to_dict(doc))       # what the JSON / YAML writers dump
+        except ImportError:
+            from odml.tools.odmlparser import ODMLWriter
+            out["file"] = ODMLWriter("JSON").to_string(doc)
+    except Exception as exc:
+        out["file"] = "raises " + fw.exc_name(exc)
+    return out
+
+
+class Scratch(object):
+    """A scratch directory that is only created when a case writes a file."""
+
+    def __init__(self):
+        self.path = None
+
+    def __call__(self):
+        if self.path is None:
+            self.path = tempfile.mkdtemp(prefix="c19_")
+        return self.path
+
+    def remove(self):
+        if self.path is not None:
+            shutil.rmtree(self.path, ignore_errors=True)
+
+
 def walk(root):
-    """The objects a validation of a Document visits (own traversal): (klass, object)."""
-    out = [("odML", root)]
+    """The objects a validation of root visits (own traversal): (klass, object).  A Property is
+    visited alone; of a Section that is the root its own Properties are not visited (C08)."""
+    name = root.format().name
+    if name == "property":
+        return [("property", root)]
+    out = [("odML" if name == "odML" else "section", root)]
     stack = list(root.sections)
     while stack:
         s = stack.pop(0)
@@ -234,6 +305,615 @@ def gen_history(rng, tier):
     return acts
 
 
+# ----------------------------------------------------------------------------- wide stream
+INC_MARK = "@INC"          # placeholder of the include URL (a file of the case's scratch directory)
+NONASCII = ["\u0661\u0662", "na\u00efve", "a\u2028b", "\u540d\u524d", "x\x85y", "\ud800x"]
+
+
+def build_doc(spec, inc_url="file:///nonexistent/c19inc.xml"):
+    """c08.build plus the linking / including Sections of spec["links"], created through the
+    public constructor arguments (the state of a freshly built or loaded document: not resolved)."""
+    import odml
+    doc, bt = c08.build({"kind": "doc", "node": spec})
+    for ln in spec.get("links", []):
+        parent = doc
+        for i in ln.get("at", []):
+            if len(parent.sections):
+                parent = parent.sections[i % len(parent.sections)]
+        kw = {}
+        if ln.get("include"):
+            kw["include"] = ln["include"].replace(INC_MARK, inc_url)
+        else:
+            kw["link"] = ln["link"]
+        if ln.get("pc") is not None:
+            kw["prop_cardinality"] = tuple(ln["pc"])
+        odml.Section(name=ln["name"], type=ln.get("type", "t"), oid=c08.tok_id(ln["id"]), parent=parent, **kw)
+    return doc, bt
+
+
+def has_include(doc):
+    return any(s.include is not None for s in doc.itersections(recursive=True))
+
+
+def gen_links(rng, doc, ids, n):
+    tops = [s["name"] for s in doc["secs"] if s["name"] not in ("", "=id", None)]
+    out = []
+    for k in range(n):
+        at = [] if rng.random() < 0.6 or len(doc["secs"]) < 2 else [rng.randrange(len(doc["secs"]) - 1)]
+        ln = {"id": ids(), "name": "ln%d" % k, "type": rng.choice(["t", "t", "u", "n.s."]), "at": at,
+              "pc": rng.choice([None, None, [1, None], [2, None], [None, 1], [1, 1]])}
+        r = rng.random()
+        if r < 0.12:
+            ln["include"] = INC_MARK + rng.choice(["", "#/s", "#/nope"])
+        else:
+            # never the own ancestor: a nested linking Section sits below one of secs[:-1], "zz" is last
+            others = [t for i, t in enumerate(tops) if not at or i != at[0] % len(doc["secs"])]
+            target = rng.choice(others + ["zz", "zz"]) if others else "zz"
+            if r < 0.2:
+                target = "nope"
+            ln["link"] = ("/" if not at or rng.random() < 0.6 else "../../") + target
+        out.append(ln)
+    return out
+
+
+def gen_wide_doc(rng, zz=True):
+    dirt = rng.choice([0.0, 0.05, 0.3])
+    ids = c08.id_source(rng, 0.1 if dirt else 0.0)
+    strs = c08.STRS[:30] + MULTI + (NONASCII if rng.random() < 0.3 else [])
+    secs = []
+    for _ in range(rng.choice([0, 1, 1, 2, 3])):
+        secs.append(c08.gen_sec(rng, ids, rng.choice([0, 1, 1, 2, 3]), strs, dirt, [x["name"] for x in secs]))
+    doc = {"id": ids(), "secs": secs + ([json.loads(json.dumps(ZZ))] if zz else [])}
+
+    def clean(sec):
+        for p in sec["props"]:
+            d = p.get("dtype")
+            if isinstance(d, str) and d.endswith("-tuple") and not d[:-6].isdigit():
+                p["dtype"] = "2-tuple"
+        for c in sec["subs"]:
+            clean(c)
+    for sec in doc["secs"]:
+        clean(sec)
+    if doc["secs"] and rng.random() < 0.65:
+        doc["links"] = gen_links(rng, doc, ids, rng.choice([1, 1, 2, 3]))
+    return doc
+
+
+def gen_target(rng):
+    r = rng.random()
+    if r < 0.6:
+        return None
+    return ["sec" if r < 0.85 else "prop", rng.randrange(0, 12)]
+
+
+CARD_SHAPES = [None, 2, [1, None], [None, 1], [1, 2], [2, 2], [0, 0], [None, None], [0, 3], [10, 12], [9, 10],
+               [3, 1], [-1, 2], ["1", "2"], [1.5, 2], [True, 2], [1], [1, 2, 3], "2", 0, -3, [None, -1]]
+LOAD_KINDS = ["small", "issues", "doc", "doc", "unknown_attr", "old_version", "no_version", "non_dict_root",
+              "wrong_shape", "refused_object", "no_name", "dup_names", "bad_card", "syntax", "empty",
+              "binary", "missing_file"]
+LIB_WIDE = [("loadFile", 16), ("loadString", 6), ("parserDirect", 5), ("saveVia", 9), ("toString", 2),
+            ("create", 9), ("clone", 3), ("setCard", 8), ("editAttr", 5), ("editValues", 4),
+            ("resolveLinks", 3), ("setLink", 2), ("unlink", 1), ("removeProperty", 1), ("validateMethod", 4),
+            ("constructSection", 2), ("constructProperty", 2), ("constructPropertyValues", 2),
+            ("setSecCardinality", 1), ("setPropCardinality", 1), ("setValCardinality", 1), ("assignValues", 2),
+            ("save", 2), ("load", 2), ("defaultValidation", 2), ("customValidation", 2)]
+# what the Lean model's macro table knows; every other macro is a no-op on the class-level table there
+MODEL_MACROS = {"constructSection", "constructProperty", "constructPropertyValues", "setSecCardinality",
+                "setPropCardinality", "setValCardinality", "assignValues", "save", "load",
+                "defaultValidation", "customValidation"}
+
+
+def gen_lib_wide(rng):
+    names = [n for n, _w in LIB_WIDE]
+    m = rng.choices(names, weights=[w for _n, w in LIB_WIDE])[0]
+    a = {"t": "lib", "m": m, "arg": rng.randrange(0, 48), "fmt": rng.choice(["XML", "JSON", "YAML"])}
+    if m in ("loadFile", "loadString", "parserDirect", "saveVia", "toString"):
+        a["fmt"] = rng.choice(["XML", "JSON", "YAML", "XML", "JSON", "YAML", "RDF"])
+        a["quiet"] = rng.random() < 0.5
+        a["via"] = rng.choice(["odml", "fresh", "reused", "reused"])
+    if m in ("loadFile", "loadString", "parserDirect"):
+        a["kind"] = rng.choice(LOAD_KINDS)
+    if m == "saveVia":
+        a["what"] = rng.choice(["doc", "doc", "small", "invalid"])
+        a["where"] = rng.choice(["ok", "ok", "ok", "missing_dir", "is_dir"])
+    if m == "setCard":
+        a["which"] = rng.choice(["sec", "prop", "val"])
+        a["shape"] = rng.choice(CARD_SHAPES)
+        a["method"] = rng.random() < 0.3
+    return a
+
+
+def gen_handler_wide(rng, klass):
+    r = rng.random()
+    if r < 0.07:
+        return {"c": 4}
+    if r < 0.14 and klass in EXTRA_RULES:
+        return {"x": rng.choice(EXTRA_RULES[klass])}
+    return gen_handler(rng, klass)
+
+
+def gen_wide_history(rng):
+    acts = []
+    users = []          # (handle, reset)
+    n = rng.randrange(4, 15)
+    for _ in range(n):
+        r = rng.random()
+        if r < 0.2 or not users:
+            u = len(users)
+            if rng.random() < 0.4:
+                users.append((u, True))
+                acts.append({"t": "new", "u": u, "reset": True, "quiet": rng.choice([True, True, False, False, "pos"]),
+                             "on": gen_target(rng)})
+            else:
+                users.append((u, False))
+                on = gen_target(rng)
+                via = rng.choice(["Validation", "validate", "deferred"])
+                if via == "validate":
+                    on = None        # Document.validate()
+                acts.append({"t": "default", "u": u, "on": on, "via": via})
+        elif r < 0.36:
+            resets = [u for u, rs in users if rs]
+            if resets and rng.random() < 0.94:
+                u = rng.choice(resets)
+            else:
+                u = rng.choice(users)[0]
+            k = rng.choice(KLASSES)
+            # a raising rule on a non-reset object would sit in the class-level table: every later
+            # constructor of the history would fail, nothing more would be seen
+            h = gen_handler_wide(rng, k) if dict(users)[u] else gen_handler(rng, k)
+            acts.append({"t": "custom", "u": u, "k": k, "h": h})
+        elif r < 0.52:
+            acts.append({"t": rng.choice(["run", "run", "report"]), "u": rng.choice(users)[0]})
+        elif r < 0.56:
+            acts.append({"t": "direct", "u": rng.choice(users)[0],
+                         "obj": rng.choice([None, ["sec", rng.randrange(12)], ["prop", rng.randrange(12)]])})
+        elif r < 0.58:
+            k = rng.choice(KLASSES)
+            acts.append({"t": "global", "k": k, "h": gen_handler(rng, k)})
+        else:
+            acts.append(gen_lib_wide(rng))
+    for u, _rs in users[:3]:
+        acts.append({"t": "run", "u": u})
+    acts.append({"t": "default", "u": len(users), "on": None,
+                 "via": rng.choice(["Validation", "validate"])})
+    return acts
+
+
+class Lib(object):
+    """The library operations of a history that are not validations of the user (edits, object
+    creation, loads, saves).  Refusals of the new macros are the business of other properties:
+    they are swallowed here, what counts is the state a refused call leaves behind."""
+
+    def __init__(self, doc, tmp, inc_url, strict=True):
+        self.strict = strict     # first-round histories: an exception of a first-round macro is a failure
+        self.doc = doc
+        self.tmp = tmp
+        self.inc_url = inc_url
+        self.counter = 0
+        self.readers = {}
+        self.writers = {}
+        self.loaded = None       # the document of the last successful load step
+        self.protected = set()   # id() of objects a Validation of the user is bound to
+
+    # -- helpers
+    def fresh(self):
+        self.counter += 1
+        return "new%d" % self.counter
+
+    def section(self, arg):
+        secs = list(self.doc.itersections(recursive=True))
+        return secs[arg % len(secs)] if secs else None
+
+    def prop(self, arg):
+        props = list(self.doc.iterproperties())
+        return props[arg % len(props)] if props else None
+
+    def zp(self):
+        try:
+            return self.doc.sections["zz"].properties["zp"]
+        except Exception:
+            return self.prop(0)
+
+    def small(self, kind):
+        import odml
+        d = odml.Document(author="a")
+        if kind == "small":
+            odml.Section(name="s", type="t", parent=d)
+            return d
+        s = odml.Section(name="s", parent=d, sec_cardinality=(1, None))          # 'n.s.', 501
+        odml.Property(name="count", values=["12"], dtype="string", parent=s)    # 403
+        odml.Property(name="few", values=[1], val_cardinality=(2, None), parent=s)  # 502
+        if kind == "invalid":
+            t = odml.Section(name="t", type="t", parent=d)
+            t.type = None                                                        # 101: save refuses
+        return d
+
+    def reader(self, a):
+        from odml.tools.odmlparser import ODMLReader
+        key = (a["fmt"], a.get("quiet", False))
+        if a.get("via") == "reused":
+            if key not in self.readers:
+                self.readers[key] = ODMLReader(a["fmt"], show_warnings=not a.get("quiet", False))
+            return self.readers[key]
+        return ODMLReader(a["fmt"], show_warnings=not a.get("quiet", False))
+
+    def writer(self, a):
+        from odml.tools.odmlparser import ODMLWriter
+        if a.get("via") == "reused":
+            if a["fmt"] not in self.writers:
+                self.writers[a["fmt"]] = ODMLWriter(a["fmt"])
+            return self.writers[a["fmt"]]
+        return ODMLWriter(a["fmt"])
+
+    def content(self, fmt, kind):
+        """Text (or bytes) of a file of the given format: good, or refused in the given way."""
+        import re
+        import yaml
+        from odml.info import FORMAT_VERSION
+        from odml.tools.dict_parser import DictWriter
+        from odml.tools.odmlparser import ODMLWriter, JSONDateTimeSerializer
+        if kind == "empty":
+            return ""
+        if kind == "binary":
+            return b"\xff\xfe\x00\x01 not a text \x80\x81"
+        base = None
+        if kind == "doc" and not (fmt == "RDF" and has_include(self.doc)):
+            base = self.doc
+        if base is None:
+            base = self.small("small" if kind == "small" else "issues")
+        if fmt == "RDF":
+            try:
+                text = ODMLWriter("RDF").to_string(base, rdf_format="xml")
+            except Exception:
+                text = ODMLWriter("RDF").to_string(self.small("small"), rdf_format="xml")
+            if kind in ("small", "issues", "doc"):
+                return text
+            if kind in ("non_dict_root", "no_name"):
+                # well-formed RDF that holds no odML document
+                return ('<?xml version="1.0" encoding="utf-8"?>\n<rdf:RDF xmlns:rdf="http://www.w3.org/1999/02/'
+                        '22-rdf-syntax-ns#"><rdf:Description rdf:about="http://x/y"><rdf:value>1</rdf:value>'
+                        '</rdf:Description></rdf:RDF>\n')
+            return text[:len(text) // 2]
+        if fmt == "XML":
+            try:
+                text = ODMLWriter("XML").to_string(base)
+            except Exception:
+                text = ODMLWriter("XML").to_string(self.small("issues"))
+            if kind == "unknown_attr":
+                text = text.replace("<property>", "<property><colour>red</colour>", 1)
+            elif kind == "old_version":
+                text = text.replace('version="%s"' % FORMAT_VERSION, 'version="1"', 1)
+            elif kind == "no_version":
+                text = text.replace(' version="%s"' % FORMAT_VERSION, "", 1)
+            elif kind == "non_dict_root":
+                text = text.replace("<odML", "<odMX", 1).replace("</odML>", "</odMX>")
+            elif kind == "wrong_shape":
+                text = text.replace("<name>", "<name><b>x</b>", 1)
+            elif kind == "refused_object":
+                text = text.replace("<section>", "<section><property><name>bad</name><value>[abc]</value>"
+                                    "<type>int</type></property>", 1)
+            elif kind == "no_name":
+                text = re.sub(r"<name>[^<]*</name>", "", text, count=1)
+            elif kind == "dup_names":
+                m = re.search(r"<property>.*?</property>", text, re.S)
+                if m:
+                    text = text.replace(m.group(0), m.group(0) + m.group(0), 1)
+            elif kind == "bad_card":
+                text = text.replace("<section>", "<section><prop_cardinality>(3, 1)</prop_cardinality>", 1)
+            elif kind == "syntax":
+                text = text[:len(text) // 2]
+            return text
+        try:
+            d = DictWriter().to_dict(base)
+            json.dumps(d, cls=JSONDateTimeSerializer)
+        except Exception:
+            d = DictWriter().to_dict(self.small("issues"))
+        whole = {"Document": d, "odml-version": FORMAT_VERSION}
+        sec0 = (d.get("sections") or [{}])[0]
+        prop0 = (sec0.get("properties") or [{}])[0]
+        if kind == "unknown_attr":
+            prop0["colour"] = "red"
+        elif kind == "old_version":
+            whole["odml-version"] = "1"
+        elif kind == "no_version":
+            del whole["odml-version"]
+        elif kind == "non_dict_root":
+            whole = [whole]
+        elif kind == "wrong_shape":
+            d["sections"] = {"a": 1}
+        elif kind == "refused_object":
+            sec0.setdefault("properties", []).append({"name": "bad", "type": "int", "value": ["abc"]})
+        elif kind == "no_name":
+            sec0.pop("name", None)
+            sec0.pop("type", None)
+        elif kind == "dup_names":
+            sec0.setdefault("properties", []).append(dict(prop0))
+        elif kind == "bad_card":
+            sec0["prop_cardinality"] = [3, 1]
+        if fmt == "JSON":
+            text = json.dumps(whole, indent=1, cls=JSONDateTimeSerializer)
+        else:
+            ODMLWriter("YAML").to_string(self.small("small"))     # registers the writer's yaml representers
+            text = yaml.dump(whole, default_flow_style=False)
+        if kind == "syntax":
+            text = text[:len(text) // 2] + ("\n]: {" if fmt == "YAML" else "")
+        return text
+
+    def write_content(self, a):
+        path = os.path.join(self.tmp(), "in%d.%s" % (self.counter, a["fmt"].lower()))
+        self.counter += 1
+        if a["kind"] == "missing_file":
+            return os.path.join(self.tmp(), "nowhere", "missing." + a["fmt"].lower())
+        data = self.content(a["fmt"], a["kind"])
+        if isinstance(data, bytes):
+            with open(path, "wb") as fh:
+                fh.write(data)
+        else:
+            with io.open(path, "w", encoding="utf-8", errors="surrogatepass") as fh:
+                fh.write(data)
+        return path
+
+    def keep(self, res):
+        if isinstance(res, list):
+            res = res[0] if res else None
+        if res is not None and hasattr(res, "itersections"):
+            self.loaded = res
+
+    # -- the macros
+    def run(self, a):
+        import odml
+        from odml.validation import Validation
+        from odml.tools.odmlparser import ODMLWriter, ODMLReader
+        m = a["m"]
+        doc = self.doc
+        arg = a.get("arg", 0)
+        if not self.strict and m in MODEL_MACROS:
+            # wide histories edit the document freely (renamed / removed objects, refused values):
+            # there a first-round macro may be refused like any other edit
+            try:
+                Lib(self.doc, self.tmp, self.inc_url).run(a)
+            except Exception:
+                pass
+            return
+        # ---- the macros of the first round (exceptions are failures of the step)
+        if m == "constructSection":
+            odml.Section(name=self.fresh(), type="t", parent=self.section(arg) if arg % 2 else doc)
+        elif m == "constructProperty":
+            odml.Property(name=self.fresh(), parent=self.section(arg))
+        elif m == "constructPropertyValues":
+            odml.Property(name=self.fresh(), values=[1, 2], parent=self.section(arg))
+        elif m == "setSecCardinality":
+            self.section(arg).sec_cardinality = (arg % 3, None) if arg % 3 else None
+        elif m == "setPropCardinality":
+            self.section(arg).prop_cardinality = (None, 1 + arg % 3)
+        elif m == "setValCardinality":
+            self.prop(arg).val_cardinality = (arg % 3, 3)
+        elif m == "assignValues":
+            doc.sections["zz"].properties["zp"].values = [1, 2, 3][:1 + arg % 3]
+        elif m == "save":
+            try:
+                ODMLWriter(a["fmt"]).write_file(doc, os.path.join(self.tmp(), "out." + a["fmt"].lower()))
+            except Exception:
+                pass        # refusing an invalid document is C07/C08's business
+        elif m == "load":
+            small = odml.Document()
+            odml.Section(name="s", type="t", parent=small)
+            text = ODMLWriter(a["fmt"]).to_string(small)
+            ODMLReader(a["fmt"], show_warnings=False).from_string(text)
+        elif m == "defaultValidation":
+            Validation(doc)
+        elif m == "customValidation":
+            Validation(doc, validate=False, reset=True)
+        else:
+            # ---- the macros of the wide stream: a refusal is not this property's business
+            try:
+                getattr(self, "m_" + m)(a, arg)
+            except Exception:
+                pass
+
+    def m_loadFile(self, a, arg):
+        import odml
+        path = self.write_content(a)
+        rdf = ("xml",) if a["fmt"] == "RDF" else ()
+        if a["via"] == "odml" and not rdf:
+            self.keep(odml.load(path, a["fmt"], show_warnings=not a["quiet"]))
+        else:
+            self.keep(self.reader(a).from_file(path, *rdf))
+
+    def m_loadString(self, a, arg):
+        kind = "small" if a["kind"] == "missing_file" else a["kind"]
+        data = self.content(a["fmt"], kind)
+        rdf = ("xml",) if a["fmt"] == "RDF" else ()
+        self.keep(self.reader(a).from_string(data, *rdf))
+
+    def m_parserDirect(self, a, arg):
+        import yaml
+        from odml.tools.xmlparser import XMLReader
+        from odml.tools.dict_parser import DictReader
+        kw = {"show_warnings": not a["quiet"], "ignore_errors": bool(arg % 2)}
+        if a["fmt"] in ("XML", "RDF"):
+            b = dict(a, fmt="XML")
+            if arg % 4 < 2:
+                self.keep(XMLReader(**kw).from_file(self.write_content(b)))
+            else:
+                kind = "small" if a["kind"] == "missing_file" else a["kind"]
+                self.keep(XMLReader(**kw).from_string(self.content("XML", kind)))
+        else:
+            kind = "small" if a["kind"] == "missing_file" else a["kind"]
+            text = self.content(a["fmt"], kind)
+            parsed = json.loads(text) if a["fmt"] == "JSON" else yaml.safe_load(text)
+            self.keep(DictReader(**kw).to_odml(parsed))
+
+    def m_saveVia(self, a, arg):
+        import odml
+        what = self.doc if a["what"] == "doc" else self.small(a["what"])
+        fmt = a["fmt"]
+        if fmt == "RDF" and has_include(what):
+            fmt = "JSON"
+        name = "save%d.%s" % (self.counter, fmt.lower())
+        self.counter += 1
+        path = os.path.join(self.tmp(), name)
+        if a["where"] == "missing_dir":
+            path = os.path.join(self.tmp(), "nowhere", name)
+        elif a["where"] == "is_dir":
+            path = os.path.join(self.tmp(), "dir.%s" % fmt.lower())
+            if not os.path.isdir(path):
+                os.makedirs(path)
+        if a["via"] == "odml":
+            odml.save(what, path, fmt)
+        else:
+            self.writer(dict(a, fmt=fmt)).write_file(what, path)
+
+    def m_toString(self, a, arg):
+        fmt = "JSON" if a["fmt"] == "RDF" and has_include(self.doc) else a["fmt"]
+        self.writer(dict(a, fmt=fmt)).to_string(self.doc)
+
+    def m_create(self, a, arg):
+        import odml
+        sec = self.section(arg)
+        k = arg % 16
+        if k == 0:
+            sec.create_section(self.fresh(), "t")
+        elif k == 1:
+            sec.create_property(self.fresh(), values=[1])
+        elif k == 2:
+            self.doc.create_section(self.fresh(), "t")
+        elif k == 3:
+            odml.Section(name=None, type="t", parent=self.doc)
+        elif k == 4:
+            odml.Property(name=None, parent=sec)
+        elif k == 5:
+            odml.Section(self.fresh(), "t", parent=sec, sec_cardinality=(1, None), prop_cardinality=(None, 2))
+        elif k == 6:
+            odml.Property(self.fresh(), values=[1, 2, 3], val_cardinality=(None, 2), parent=sec)
+        elif k == 7:
+            odml.Property(self.fresh(), values=["abc"], dtype="int", parent=sec)            # refused
+        elif k == 8:
+            odml.Property(self.fresh(), parent=self.doc)                                    # refused
+        elif k == 9:
+            odml.Section(self.fresh(), "t", parent=self.doc, prop_cardinality=(3, 1))       # refused
+        elif k == 10:
+            odml.Property(self.fresh(), values=[1], val_cardinality=(-1, 2), parent=sec)    # refused
+        elif k == 11:
+            other = odml.Document(author="x")
+            odml.Property(self.fresh(), values=["1"], dtype="string",
+                          parent=odml.Section(self.fresh(), parent=other))
+        elif k == 12:
+            odml.Section(self.fresh(), "t", parent=self.doc, link="/zz", prop_cardinality=(2, None))
+        elif k == 13:
+            odml.Section(self.fresh(), type="", parent=self.doc)
+        elif k == 14:
+            odml.Property(self.fresh(), values=["12", "13"], dtype="string", parent=sec)
+        else:
+            sec.append(odml.Property(self.fresh()))
+            sec.insert(0, odml.Section(self.fresh(), "t"))
+            sec.extend([odml.Property(self.fresh(), values=[True]), odml.Section(self.fresh(), "t")])
+
+    def m_clone(self, a, arg):
+        src = self.section(arg)
+        if arg % 8 == 7:
+            self.doc.clone(keep_id=bool(arg % 16 == 7))      # a second Document: nothing else changes
+            return
+        cp = src.clone(children=bool(arg % 4 != 3), keep_id=bool(arg % 2))
+        if arg % 4 < 2:
+            cp.name = self.fresh()
+        (self.doc if arg % 3 else self.section(arg + 1)).append(cp)
+
+    def m_setCard(self, a, arg):
+        shape = a["shape"]
+        if isinstance(shape, list):
+            shape = tuple(shape) if arg % 3 else list(shape)
+        if a["which"] == "val":
+            obj, attr, meth = self.prop(arg), "val_cardinality", "set_values_cardinality"
+        elif a["which"] == "sec":
+            obj, attr, meth = self.section(arg), "sec_cardinality", "set_sections_cardinality"
+        else:
+            obj, attr, meth = self.section(arg), "prop_cardinality", "set_properties_cardinality"
+        if a.get("method") and isinstance(shape, (tuple, list)) and len(shape) == 2:
+            getattr(obj, meth)(shape[0], shape[1])
+        else:
+            setattr(obj, attr, shape)
+
+    def m_editAttr(self, a, arg):
+        k = arg % 10
+        sec, prop = self.section(arg), self.prop(arg)
+        if k == 0:
+            sec.type = [None, "", "n.s.", "t2"][(arg // 10) % 4]
+        elif k == 1:
+            sec.name = self.fresh() if arg % 20 < 10 else sec.id
+        elif k == 2:
+            if prop.name != "zp":
+                prop.name = self.fresh() if arg % 20 < 10 else prop.id
+        elif k == 3:
+            prop.dtype = ["string", "int", "text", None][(arg // 10) % 4]
+        elif k == 4:
+            prop.dependency = ["zp", "nope", None, ""][(arg // 10) % 4]
+        elif k == 5:
+            prop.dependency_value = ["1", "abc", None][(arg // 10) % 3]
+        elif k == 6:
+            sec.definition = "d"
+            prop.unit = "mV"
+        elif k == 7:
+            self.doc.author = "someone"
+            self.doc.version = "2"
+        elif k == 8:
+            sec.repository = None
+            self.doc.repository = None
+        else:
+            sec.reorder(0)
+
+    def m_editValues(self, a, arg):
+        p = self.zp() if arg % 2 else self.prop(arg)
+        k = (arg // 2) % 8
+        if k == 0:
+            p.values = []
+        elif k == 1:
+            p.values = None
+        elif k == 2:
+            p.append(7)
+        elif k == 3:
+            p.extend([8, 9])
+        elif k == 4:
+            p.remove(p.values[0])
+        elif k == 5:
+            p.values = ["abc"]                     # refused for an int Property
+        elif k == 6:
+            p.values = list(range(12))             # a two-digit count against single-digit bounds
+        else:
+            p.values = p.values + p.values
+
+    def m_resolveLinks(self, a, arg):
+        for sec in list(self.doc.itersections(recursive=True)):
+            if sec.link is not None and not sec.is_merged:
+                try:
+                    sec.merge()
+                except Exception:
+                    pass
+
+    def m_setLink(self, a, arg):
+        import odml
+        sec = odml.Section(self.fresh(), "t", parent=self.doc, prop_cardinality=(2 if arg % 2 else None, 3))
+        sec.link = "/zz" if arg % 4 < 3 else "/nope"
+
+    def m_unlink(self, a, arg):
+        for sec in list(self.doc.itersections(recursive=True)):
+            if sec.link is not None and sec.is_merged:
+                sec.link = None
+                return
+
+    def m_removeProperty(self, a, arg):
+        p = self.prop(arg)
+        if p is not None and p.name != "zp" and id(p) not in self.protected:
+            p.parent.remove(p)
+
+    def m_validateMethod(self, a, arg):
+        # the library-side spellings of "validate this": neither may touch the registry
+        if arg % 2:
+            self.doc.validate()
+        else:
+            self.doc.validate().report()
+
+
 # ----------------------------------------------------------------------------- the check
 class C19(fw.Check):
     prop = "C19"
@@ -263,6 +943,14 @@ class C19(fw.Check):
             "explicit register_handler, run / report, Section / Property construction, the three "
             "cardinality setters, value assignment, save (XML/JSON/YAML), load; plus handler-order "
             "permutations and cross-process (other PYTHONHASHSEED) validation of the same documents. "
+            "Wide stream: documents with unresolved/resolved links and includes, deeper trees, non-ASCII "
+            "values x histories that also validate a Section or a Property, start validations through "
+            "Document.validate() / validate=False + run_validation() / Validation.validate(obj), load and "
+            "save through every entry point (odml.load/save, fresh and re-used readers/writers, file and "
+            "string, XMLReader/DictReader, quiet and loud, XML/JSON/YAML/RDF, good and refused files, "
+            "unwritable targets), create objects in every spelling incl. refused ones, set every "
+            "cardinality argument shape incl. refused ones, edit attributes and values between runs, "
+            "resolve links, register raising user rules and the library's non-default rules. "
             "Non-trivial = a history with at least one registration on a reset validation or a library "
             "macro, or a permutation/xproc case with at least one issue.")
 
@@ -279,22 +967,57 @@ class C19(fw.Check):
             cases.append({"stream": "xproc", "hashseed": rng.randrange(1, 4000),
                           "docs": [gen_doc(rng, rng.choice([0.05, 0.3, 0.6])) for _ in range(30 if quick else 200)]
                                   + [multi_doc(rng) for _ in range(3)]})
+        # ---- added after seeded round 2 (drawn after the streams above, which keep their cases)
+        for _ in range(600 if quick else 20000):
+            cases.append({"stream": "wide", "doc": gen_wide_doc(rng), "acts": gen_wide_history(rng)})
+        for _ in range(120 if quick else 3000):
+            cases.append({"stream": "perm", "doc": gen_wide_doc(rng, zz=rng.random() < 0.7),
+                          "seed": rng.randrange(10 ** 6), "resolve": rng.random() < 0.4})
+        for b in range(2 if quick else 8):
+            cases.append({"stream": "xproc", "hashseed": rng.randrange(1, 4000), "locale": bool(b % 2),
+                          "roundtrip": True,
+                          "docs": [gen_wide_doc(rng, zz=rng.random() < 0.8) for _ in range(25 if quick else 150)]})
         return cases
 
     # -- implementation ------------------------------------------------------
     def impl(self, case):
         saved = registry_copy()
-        tmp = tempfile.mkdtemp(prefix="c19_")
+        tmp = Scratch()
         try:
             st = case["stream"]
-            if st == "history":
+            if st in ("history", "wide"):
                 return self.run_history(case, tmp, saved)
             if st == "perm":
                 return self.run_perm(case)
             return self.run_xproc(case)
         finally:
             registry_restore(saved)
-            shutil.rmtree(tmp, ignore_errors=True)
+            tmp.remove()
+            if tmp.path is not None:
+                self.drop_include_cache()
+
+    @staticmethod
+    def drop_include_cache():
+        """Only a resolved include (RDF export, a changed library) leaves a copy in the loader's cache."""
+        import glob
+        for path in glob.glob(os.path.join(tempfile.gettempdir(), "odml.cache", "*.c19inc_%d.xml" % os.getpid())):
+            try:
+                os.remove(path)
+            except OSError:
+                pass
+
+    @staticmethod
+    def include_file(tmp):
+        """A small odML file the include attributes of a case point to -> its URL."""
+        import odml
+        from odml.tools.odmlparser import ODMLWriter
+        inc = odml.Document()
+        s = odml.Section(name="s", type="t", parent=inc)
+        odml.Property(name="incp", values=[1], parent=s)
+        path = os.path.join(tmp(), "c19inc_%d.xml" % os.getpid())
+        with io.open(path, "w", encoding="utf-8") as fh:
+            fh.write(ODMLWriter("XML").to_string(inc))
+        return "file://" + path
 
     @staticmethod
     def node_of(doc):
@@ -308,45 +1031,124 @@ class C19(fw.Check):
         import odml
         from odml.validation import Validation
         pristine = registry_names()
-        doc, _bt = c08.build({"kind": "doc", "node": case["doc"]})
+        inc_url = self.include_file(tmp) if any(ln.get("include") for ln in case["doc"].get("links", [])) \
+            else "file:///nonexistent/c19inc.xml"
+        doc, _bt = build_doc(case["doc"], inc_url)
         start = registry_names()
+        lib = Lib(doc, tmp, inc_url, strict=case["stream"] == "history")
         insts = {}
+        targets = {}           # user handle -> the object its Validation is bound to
         handlers_of = {}       # user handle -> {klass: [functions]} registered through the API
         is_reset = {}
         extra_global = dict((k, []) for k in KLASSES)
-        counter = [0]
         steps = []
 
-        def fresh():
-            counter[0] += 1
-            return "new%d" % counter[0]
+        def resolve(on):
+            if not on:
+                return doc
+            obj = lib.section(on[1]) if on[0] == "sec" else lib.prop(on[1])
+            return doc if obj is None else obj
 
-        def target_section(arg):
-            secs = list(doc.itersections(recursive=True))
-            return secs[arg % len(secs)]
+        def bind(u, on):
+            targets[u] = resolve(on)
+            lib.protected.add(id(targets[u]))
+            return targets[u]
 
-        def target_property(arg):
-            props = list(doc.iterproperties())
-            return props[arg % len(props)]
+        def snap(root):
+            return full_snapshot(doc, () if root is doc else (root,))
 
-        def validation_step(fn, u):
-            before = deep_snapshot(doc)
-            kind, node, refs = self.node_of(doc)
-            fn()
-            issues = c08.issue_list(insts[u].errors, refs)
-            after = deep_snapshot(doc)
-            insts[u].run_validation()
-            again = c08.issue_list(insts[u].errors, refs)
-            after2 = deep_snapshot(doc)
-            obs = {"issues": issues, "again": again, "unchanged": before == after and after == after2,
-                   "kind": kind, "node": node, "u": u}
-            # what this object has to report, computed by applying handlers directly
+        def table_of(u):
             if is_reset[u]:
-                table = handlers_of[u]
-            else:
-                table = dict((k, list(set(saved.get(k, ())) | set(extra_global[k]))) for k in KLASSES)
+                return handlers_of[u]
+            return dict((k, list(set(saved.get(k, ())) | set(extra_global[k]))) for k in KLASSES)
+
+        def validation_step(fn, u, texts=None):
+            root = targets[u]
+            before = snap(root)
+            kind, node, refs = self.node_of(root)
+            if kind not in ("doc", "sec", "prop") or (kind == "prop" and root.parent is not None):
+                node = None      # the model's stand-alone Property has no siblings: oracle only
+            obs = {"kind": kind, "node": node, "u": u}
             try:
-                obs["expected"] = apply_directly(table, doc, refs)
+                r = fn()
+                if texts is not None:
+                    texts.append(r)
+                obs["issues"] = c08.issue_list(insts[u].errors, refs)
+            except Exception as exc:
+                obs["run_raised"] = fw.exc_name(exc)
+            after = snap(root)
+            if u in insts:
+                try:
+                    if texts is not None:
+                        texts.append(insts[u].report())
+                    else:
+                        insts[u].run_validation()
+                    obs["again"] = c08.issue_list(insts[u].errors, refs)
+                except Exception as exc:
+                    obs["again_raised"] = fw.exc_name(exc)
+            after2 = snap(root)
+            obs["unchanged"] = before == after and after == after2
+            if texts is not None and len(texts) == 2:
+                obs["report_same"] = texts[0] == texts[1]
+            # what this object has to report, computed by applying handlers directly
+            try:
+                obs["expected"] = apply_directly(table_of(u), root, refs)
+            except Exception as exc:
+                obs["expected_failed"] = fw.exc_name(exc)
+            return obs
+
+        def direct_step(u, obj):
+            """Validation.validate(obj): the rules of this Validation applied to one object."""
+            root = targets[u]
+            before = snap(root)
+            _kind, _snap, refs = c08.snapshot(doc)
+            if id(obj) not in refs:
+                _k2, _s2, more = c08.snapshot(obj)
+                refs = dict(more, **refs)
+            klass = obj.format().name
+            obs = {"kind": "direct", "node": None, "u": u}
+            val = insts[u]
+            try:
+                n0 = len(val.errors)
+                val.validate(obj)
+                obs["issues"] = c08.issue_list(val.errors[n0:], refs)
+            except Exception as exc:
+                obs["run_raised"] = fw.exc_name(exc)
+            after = full_snapshot(doc, (obj, root))
+            try:
+                n1 = len(val.errors)
+                val.validate(obj)
+                obs["again"] = c08.issue_list(val.errors[n1:], refs)
+            except Exception as exc:
+                obs["again_raised"] = fw.exc_name(exc)
+            obs["unchanged"] = before == snap(root) and after == full_snapshot(doc, (obj, root))
+            try:
+                out = []
+                for h in table_of(u).get(klass, ()):
+                    out.extend(h(obj))
+                obs["expected"] = c08.issue_list(out, refs)
+            except Exception as exc:
+                obs["expected_failed"] = fw.exc_name(exc)
+            return obs
+
+        def loaded_step(loaded):
+            """A default validation of the document a load step has just returned."""
+            try:
+                before = full_snapshot(loaded)
+                _kind, _snap, refs = c08.snapshot(loaded)
+            except Exception:
+                return None      # a document read with ignore_errors the harness cannot read back
+            obs = {}
+            try:
+                val = Validation(loaded)
+                obs["issues"] = c08.issue_list(val.errors, refs)
+                obs["again"] = c08.issue_list(loaded.validate().errors, refs)
+            except Exception as exc:
+                obs["run_raised"] = fw.exc_name(exc)
+            obs["unchanged"] = before == full_snapshot(loaded)
+            try:
+                table = dict((k, list(set(saved.get(k, ())) | set(extra_global[k]))) for k in KLASSES)
+                obs["expected"] = apply_directly(table, loaded, refs)
             except Exception as exc:
                 obs["expected_failed"] = fw.exc_name(exc)
             return obs
@@ -357,17 +1159,29 @@ class C19(fw.Check):
             try:
                 if t == "new":
                     # both spellings of "created with reset=True" (validate defaults to True)
-                    insts[a["u"]] = Validation(doc, validate=False, reset=True) if a.get("quiet", True) \
-                        else Validation(doc, reset=True)
+                    root = bind(a["u"], a.get("on"))
+                    if a.get("quiet", True) == "pos":
+                        insts[a["u"]] = Validation(root, False, True)
+                    else:
+                        insts[a["u"]] = Validation(root, validate=False, reset=True) if a.get("quiet", True) \
+                            else Validation(root, reset=True)
                     is_reset[a["u"]] = True
                     handlers_of[a["u"]] = {}
                 elif t == "default":
                     u = a["u"]
                     is_reset[u] = False
                     handlers_of[u] = {}
+                    root = bind(u, a.get("on"))
+                    via = a.get("via", "Validation")
 
-                    def create(u=u):
-                        insts[u] = Validation(doc)
+                    def create(u=u, root=root, via=via):
+                        if via == "validate" and root is doc:
+                            insts[u] = doc.validate()
+                        elif via == "deferred":
+                            insts[u] = Validation(root, validate=False)
+                            insts[u].run_validation()
+                        else:
+                            insts[u] = Validation(root)
                     obs = validation_step(create, u)
                 elif t == "custom":
                     f = handler_func(a["h"])
@@ -386,9 +1200,16 @@ class C19(fw.Check):
                 elif t == "run":
                     obs = validation_step(insts[a["u"]].run_validation, a["u"])
                 elif t == "report":
-                    obs = validation_step(insts[a["u"]].report, a["u"])
+                    obs = validation_step(insts[a["u"]].report, a["u"], [])
+                elif t == "direct":
+                    obs = direct_step(a["u"], resolve(a.get("obj")))
                 elif t == "lib":
-                    self.lib(a, doc, tmp, fresh, target_section, target_property)
+                    lib.loaded = None
+                    lib.run(a)
+                    if lib.loaded is not None:
+                        got = loaded_step(lib.loaded)
+                        if got is not None:
+                            obs["loaded"] = got
             except Exception as exc:
                 obs["raised"] = fw.exc_name(exc)
             obs["global"] = registry_names()
@@ -397,49 +1218,26 @@ class C19(fw.Check):
 
     @staticmethod
     def lib(a, doc, tmp, fresh, target_section, target_property):
-        import odml
-        from odml.validation import Validation
-        from odml.tools.odmlparser import ODMLWriter, ODMLReader
-        m = a["m"]
-        if m == "constructSection":
-            odml.Section(name=fresh(), type="t", parent=target_section(a["arg"]) if a["arg"] % 2 else doc)
-        elif m == "constructProperty":
-            odml.Property(name=fresh(), parent=target_section(a["arg"]))
-        elif m == "constructPropertyValues":
-            odml.Property(name=fresh(), values=[1, 2], parent=target_section(a["arg"]))
-        elif m == "setSecCardinality":
-            target_section(a["arg"]).sec_cardinality = (a["arg"] % 3, None) if a["arg"] % 3 else None
-        elif m == "setPropCardinality":
-            target_section(a["arg"]).prop_cardinality = (None, 1 + a["arg"] % 3)
-        elif m == "setValCardinality":
-            target_property(a["arg"]).val_cardinality = (a["arg"] % 3, 3)
-        elif m == "assignValues":
-            doc.sections["zz"].properties["zp"].values = [1, 2, 3][:1 + a["arg"] % 3]
-        elif m == "save":
-            try:
-                ODMLWriter(a["fmt"]).write_file(doc, os.path.join(tmp, "out." + a["fmt"].lower()))
-            except Exception:
-                pass        # refusing an invalid document is C07/C08's business
-        elif m == "load":
-            small = odml.Document()
-            odml.Section(name="s", type="t", parent=small)
-            text = ODMLWriter(a["fmt"]).to_string(small)
-            ODMLReader(a["fmt"], show_warnings=False).from_string(text)
-        elif m == "defaultValidation":
-            Validation(doc)
-        elif m == "customValidation":
-            Validation(doc, validate=False, reset=True)
+        """The macros of the first round (kept for callers of the old signature)."""
+        Lib(doc, (lambda: tmp), "file:///nonexistent/c19inc.xml").run(a)
 
     def run_perm(self, case):
         import random
         from odml.validation import Validation
-        doc, _bt = c08.build({"kind": "doc", "node": case["doc"]})
+        doc, _bt = build_doc(case["doc"])
+        if case.get("resolve"):
+            for sec in list(doc.itersections(recursive=True)):
+                if sec.link is not None:
+                    try:
+                        sec.merge()
+                    except Exception:
+                        pass
         kind, node, refs = self.node_of(doc)
         rng = random.Random(case["seed"])
         base = dict((k, sorted(Validation._handlers.get(k, ()), key=lambda f: f.__name__)) for k in KLASSES)
         orders = []
         results = []
-        snaps = [deep_snapshot(doc)]
+        snaps = [full_snapshot(doc)]
         for _ in range(2):
             table = dict((k, rng.sample(v, len(v))) for k, v in base.items())
             val = Validation(doc, validate=False, reset=True)
@@ -449,20 +1247,29 @@ class C19(fw.Check):
                 return {"skipped": "no _handlers attribute"}
             val.run_validation()
             results.append(c08.issue_list(val.errors, refs))
-            snaps.append(deep_snapshot(doc))
+            snaps.append(full_snapshot(doc))
             orders.append(dict((k, [f.__name__ for f in v]) for k, v in table.items()))
         default = c08.issue_list(Validation(doc).errors, refs)
+        snaps.append(full_snapshot(doc))
+        method = c08.issue_list(doc.validate().errors, refs)
+        snaps.append(full_snapshot(doc))
         return {"kind": kind, "node": node, "orders": orders, "results": results, "default": default,
-                "unchanged": all(s == snaps[0] for s in snaps)}
+                "method": method, "unchanged": all(s == snaps[0] for s in snaps)}
 
     def run_xproc(self, case):
-        here = child_validate(case["docs"])
+        here = child_validate(case["docs"], case.get("roundtrip", False))
         env = dict(os.environ)
         env["PYTHONHASHSEED"] = str(case["hashseed"])
         env["ODML_REPO"] = fw.REPO
         env["PYTHONPATH"] = os.path.join(fw.VERIF, "harness")
-        proc = subprocess.run([sys.executable, os.path.abspath(__file__), "--child"],
-                              input=json.dumps(case["docs"]).encode("utf-8"), env=env,
+        if case.get("locale"):
+            # process-level defaults the issues must not depend on
+            env["LC_ALL"] = "C"
+            env["LANG"] = "C"
+            env["PYTHONUTF8"] = "0"
+            env["PYTHONCOERCECLOCALE"] = "0"
+        cmd = [sys.executable, os.path.abspath(__file__), "--child"] + (["--roundtrip"] if case.get("roundtrip") else [])
+        proc = subprocess.run(cmd, input=json.dumps(case["docs"]).encode("utf-8"), env=env,
                               stdout=subprocess.PIPE, stderr=subprocess.PIPE, timeout=600)
         if proc.returncode != 0:
             return {"child_failed": proc.stderr.decode("utf-8", "replace")[-600:], "here": here}
@@ -470,6 +1277,11 @@ class C19(fw.Check):
         return {"here": here, "there": there}
 
     # -- model ---------------------------------------------------------------
+    @staticmethod
+    def modelled(case):
+        """Does the Lean model know every handler this history registers?"""
+        return all(handler_modelled(a["h"]) for a in case["acts"] if a["t"] in ("custom", "global"))
+
     @staticmethod
     def model_acts(case, obs):
         """-> (driver acts, index of the driver output that belongs to each impl step)"""
@@ -490,15 +1302,19 @@ class C19(fw.Check):
                 out.append({"t": "custom", "u": a["u"], "k": a["k"], "h": a["h"]})
             elif t == "global":
                 out.append({"t": "global", "k": a["k"], "h": a["h"]})
-            elif t == "lib":
+            elif t == "lib" and a["m"] in MODEL_MACROS:
                 out.append({"t": "lib", "m": a["m"]})
+            # every other step (the wide stream's macros, Validation.validate(obj)) has no macro in
+            # the model: the model's registry stays what it is and is compared again after the step
             last.append(len(out) - 1)
         return out, last
 
     def model_requests(self, case, obs):
         st = case["stream"]
-        if st == "history":
-            if any("raised" in s for s in obs["steps"]):
+        if st in ("history", "wide"):
+            if any("raised" in s or "run_raised" in s or "again_raised" in s for s in obs["steps"]):
+                return []
+            if not self.modelled(case):
                 return []
             acts, _last = self.model_acts(case, obs)
             return [{"p": "C19", "op": "history", "acts": acts}]
@@ -516,7 +1332,7 @@ class C19(fw.Check):
     def compare(self, case, obs, answers):
         out = []
         st = case["stream"]
-        if st == "history" and answers:
+        if st in ("history", "wide") and answers:
             _acts, last = self.model_acts(case, obs)
             outs = answers[0]
             for i, (a, step) in enumerate(zip(case["acts"], obs["steps"])):
@@ -527,7 +1343,8 @@ class C19(fw.Check):
                     out.append("step %d (%s): model registry %s, implementation %s"
                                % (i, a["t"], m["global"], step["global"]))
                     break
-                if "issues" in step and step.get("node") is not None and "issues" in m:
+                if a["t"] in ("default", "run", "report") and "issues" in step \
+                        and step.get("node") is not None and "issues" in m:
                     mine = sorted(m["issues"], key=lambda x: (x[0], x[1], x[2]))
                     if mine != [list(x) for x in step["issues"]]:
                         out.append("step %d (%s of object %s): model issues %s..., implementation %s..."
@@ -541,12 +1358,42 @@ class C19(fw.Check):
         return out
 
     # -- oracle --------------------------------------------------------------
+    @staticmethod
+    def judge_validation(out, i, what, u, step):
+        """The clauses about one validation (a step of the user, or of a freshly loaded document)."""
+        if "run_raised" in step:
+            # only a user rule that itself raises on this document explains a raising validation
+            if "expected_failed" not in step:
+                out.append("step %d (%s) raised %s" % (i, what, step["run_raised"]))
+                return False
+            if "again" in step:
+                out.append("step %d (%s): the validation raised %s, validating the unchanged objects "
+                           "again did not" % (i, what, step["run_raised"]))
+        elif "again_raised" in step:
+            out.append("step %d (%s): validating the unchanged objects again raised %s"
+                       % (i, what, step["again_raised"]))
+        if not step["unchanged"]:
+            out.append("step %d (%s): the validated objects were changed by the validation" % (i, what))
+        if "issues" in step:
+            if "again" in step and step["again"] != step["issues"]:
+                out.append("step %d (%s): validating the unchanged objects again reports %d issues "
+                           "instead of %d" % (i, what, len(step["again"]), len(step["issues"])))
+            if step.get("report_same") is False:
+                out.append("step %d (%s): two reports on the unchanged objects differ" % (i, what))
+            if "expected" in step and step["expected"] != step["issues"]:
+                extra = [x for x in step["issues"] if x not in step["expected"]]
+                missing = [x for x in step["expected"] if x not in step["issues"]]
+                out.append("step %d (%s of object %s): reported issues are not those of the rules "
+                           "registered for it: unexpected %s, missing %s"
+                           % (i, what, u, extra[:4], missing[:4]))
+        return True
+
     def oracle(self, case, obs):
         if "harness_exception" in obs:
             return []
         st = case["stream"]
         out = []
-        if st == "history":
+        if st in ("history", "wide"):
             if obs["start"] != obs["pristine"]:
                 out.append("building the document (constructors, value and cardinality setters) changed "
                            "the default registry: %s -> %s" % (obs["pristine"], obs["start"]))
@@ -568,18 +1415,12 @@ class C19(fw.Check):
                     out.append("step %d (%s) changed the default registry: %s -> %s"
                                % (i, what, prev, step["global"]))
                 prev = step["global"]
-                if "issues" in step:
-                    if not step["unchanged"]:
-                        out.append("step %d (%s): the validated objects were changed by the validation" % (i, t))
-                    if step["again"] != step["issues"]:
-                        out.append("step %d (%s): validating the unchanged objects again reports %d issues "
-                                   "instead of %d" % (i, t, len(step["again"]), len(step["issues"])))
-                    if "expected" in step and step["expected"] != step["issues"]:
-                        extra = [x for x in step["issues"] if x not in step["expected"]]
-                        missing = [x for x in step["expected"] if x not in step["issues"]]
-                        out.append("step %d (%s of object %s): reported issues are not those of the rules "
-                                   "registered for it: unexpected %s, missing %s"
-                                   % (i, t, a.get("u"), extra[:4], missing[:4]))
+                if "unchanged" in step:
+                    if not self.judge_validation(out, i, t, a.get("u"), step):
+                        break
+                if "loaded" in step:
+                    self.judge_validation(out, i, "default validation of the document loaded by lib:" + a["m"],
+                                          "loaded", step["loaded"])
         elif st == "perm":
             if "skipped" in obs:
                 return []
@@ -587,6 +1428,9 @@ class C19(fw.Check):
                 out.append("two orders of the same handlers report different issue multisets")
             if obs["results"][0] != obs["default"]:
                 out.append("the default validation differs from the default rules applied in a fixed order")
+            if "method" in obs and obs["method"] != obs["default"]:
+                out.append("Document.validate() and Validation(doc) report different issues on the same "
+                           "unchanged document")
             if not obs["unchanged"]:
                 out.append("the validated objects were changed by a validation")
         else:
@@ -599,11 +1443,15 @@ class C19(fw.Check):
 
     def tag(self, case, obs):
         st = case["stream"]
-        if st == "history":
+        if st in ("history", "wide"):
             kinds = set(a["t"] if a["t"] != "lib" else "lib" for a in case["acts"])
             priv = any(a["t"] == "custom" for a in case["acts"]) or "lib" in kinds
             glob = "global" in kinds
-            return ("history:%s%s" % ("global" if glob else "clean", "+custom" if priv else ""), priv)
+            extra = ""
+            if st == "wide":
+                extra = "" if self.modelled(case) and not any(
+                    "run_raised" in s for s in obs.get("steps", [])) else "+oracle-only"
+            return ("%s:%s%s%s" % (st, "global" if glob else "clean", "+custom" if priv else "", extra), priv)
         if st == "perm":
             return ("perm", bool(obs.get("default")))
         return ("xproc", any(obs.get("here", [])))
@@ -621,12 +1469,14 @@ def issues_with_text(errors, refs):
     return sorted(out, key=lambda x: (x[0], x[1] if x[1] is not None else -1, str(x[2]), x[3]))
 
 
-def child_validate(docs):
-    """Default validation and a reset validation with user rules, per document -> issue lists."""
+def child_validate(docs, roundtrip=False):
+    """Default validation and a reset validation with user rules, per document -> issue lists.
+    roundtrip: also the default validation of the document read back from its own JSON text, and of
+    the document after its links have been resolved (ids of merged copies are random: not compared)."""
     from odml.validation import Validation
     out = []
     for spec in docs:
-        doc, _bt = c08.build({"kind": "doc", "node": spec})
+        doc, _bt = build_doc(spec)
         _kind, _snap, refs = c08.snapshot(doc)
         try:
             a = issues_with_text(Validation(doc).errors, refs)
@@ -643,7 +1493,33 @@ def child_validate(docs):
             b = issues_with_text(val.errors, refs)
         except Exception as exc:
             b = ["raised " + fw.exc_name(exc)]
-        out.append([a, b])
+        row = [a, b]
+        if roundtrip:
+            from odml.tools.odmlparser import ODMLWriter, ODMLReader
+            try:
+                c = issues_with_text(doc.validate().errors, refs)
+            except Exception as exc:
+                c = ["raised " + fw.exc_name(exc)]
+            try:
+                text = ODMLWriter("JSON").to_string(doc)
+                back = ODMLReader("JSON", show_warnings=False).from_string(text)
+                _k, _s, brefs = c08.snapshot(back)
+                d = issues_with_text(Validation(back).errors, brefs)
+            except Exception as exc:
+                d = ["raised " + fw.exc_name(exc)]
+            try:
+                for sec in list(doc.itersections(recursive=True)):
+                    if sec.link is not None:
+                        try:
+                            sec.merge()
+                        except Exception:
+                            pass
+                _k, _s, mrefs = c08.snapshot(doc)
+                e = issues_with_text(Validation(doc).errors, mrefs)
+            except Exception as exc:
+                e = ["raised " + fw.exc_name(exc)]
+            row += [c, d, e]
+        out.append(row)
     return out
 
 
@@ -651,7 +1527,7 @@ if __name__ == "__main__":
     if len(sys.argv) > 1 and sys.argv[1] == "--child":
         specs = json.loads(sys.stdin.read())
         with fw.quiet():
-            res = child_validate(specs)
+            res = child_validate(specs, "--roundtrip" in sys.argv[2:])
         sys.stdout.write(json.dumps(res) + "\n")
         sys.exit(0)
     sys.exit(fw.main(C19(), sys.argv[1:]))
